@@ -286,6 +286,24 @@ func (m *vfModel) observeLevel(ctx *vfReqCtx, in *vfIntent, resp *vfResp) {
 			}
 		}
 	}
+	if newVal == "" && resp.Code >= 400 {
+		// a session token handed out in the body or redirect target of a refusal is handed out all the same
+		for _, f := range strings.FieldsFunc(string(resp.Body)+" "+resp.Header.Get("Location"), func(c rune) bool {
+			return !(c == '.' || c == '-' || c == '_' || (c >= '0' && c <= '9') || (c >= 'a' && c <= 'z') || (c >= 'A' && c <= 'Z'))
+		}) {
+			if strings.HasPrefix(f, "eyJ") && strings.Count(f, ".") == 2 {
+				if pl := vfJWTPayload(f); pl != nil && jstr(pl, "token_type") == "keymaster_auth" && m.cookies[f] == nil && f != ctx.req.Cookies[authCookieName] {
+					opn := ""
+					if in != nil {
+						opn = in.Op
+					}
+					w.violate("C05", "session-in-refusal", "session-in-refusal:"+opn,
+						fmt.Sprintf("the refusal (%d) of %s carries a session token for %q (level %s)", resp.Code, ctx.req.Path, jstr(pl, "sub"), vfLevelString(int(jnum(pl, "auth_type")))))
+					break
+				}
+			}
+		}
+	}
 	if newVal == "" {
 		return
 	}
@@ -300,6 +318,15 @@ func (m *vfModel) observeLevel(ctx *vfReqCtx, in *vfIntent, resp *vfResp) {
 	iat := time.Unix(jnum(pl, "iat"), 0)
 	inVal := ctx.req.Cookies[authCookieName]
 	inInfo := m.cookies[inVal]
+	// several auth cookies in one request: the one re-issued is the one of the new cookie's subject
+	for _, pc := range ctx.req.PreCookies {
+		if pc[0] != authCookieName {
+			continue
+		}
+		if ci := m.cookies[pc[1]]; ci != nil && ci.Subject == sub && (inInfo == nil || inInfo.Subject != sub) {
+			inVal, inInfo = pc[1], ci
+		}
+	}
 	claims := append([]vfClaim{}, ctx.truth...)
 	claims = append(claims, m.credentialClaims(ctx)...)
 	if in != nil {
